@@ -106,7 +106,9 @@ type interpreter struct {
 	envPool    map[*ssa.Function][][]value
 	unwinding  bool
 	panicStack string
+	acc        *accessLog
 	inHook     bool
+	pollCell   *value
 	guardLimit []int64
 	guardDecLimit []int
 	lastGuard  string
@@ -290,6 +292,9 @@ func visitInstr(fr *frame, instr ssa.Instruction) continuation {
 	case *ssa.Store:
 		switch addr := fr.get(instr.Addr).(type) {
 		case *value:
+			if i.acc != nil {
+				i.logAccess(addr, true)
+			}
 			store(deref(instr.Addr.Type()), addr, fr.get(instr.Val))
 		case *symptr:
 			i.symStore(addr, fr.get(instr.Val))
@@ -425,6 +430,9 @@ func visitInstr(fr *frame, instr ssa.Instruction) continuation {
 		case *omap:
 			if m == nil {
 				panic(runtimeError("assignment to entry in nil map"))
+			}
+			if i.acc != nil {
+				i.logAccess(m, true)
 			}
 			m.insert(i, key, v)
 		default:
